@@ -209,6 +209,23 @@ def encode(d, v, ctx, o=DEFAULT_OPTS):
             if v.y is None:
                 del out["y"]
         return out
+    if k == "dcmut":
+        out = {"v": E(d[1], v.v)}
+        if v.v is None and o["drop_none_fields"]:
+            del out["v"]
+        if v.b is None:
+            if not o["drop_none_fields"]:
+                out["b"] = None
+        else:
+            ob = {}
+            if v.b.a is None:
+                if not o["drop_none_fields"]:
+                    ob["a"] = None
+            else:
+                ob["a"] = E(d, v.b.a)
+            ob["w"] = v.b.w
+            out["b"] = ob
+        return out
     raise ValueError(d)
 
 
@@ -521,7 +538,7 @@ def decode(d, x, ctx, o=DEFAULT_OPTS):
             else:
                 kw[name] = D(e, y)
         return info["cls"](**kw)
-    if k in ("dcgen", "dcgeninh", "dcinh", "dcself", "dcselft", "dcfwd"):
+    if k in ("dcgen", "dcgeninh", "dcinh", "dcself", "dcselft", "dcfwd", "dcmut"):
         return _dec_special(d, x, ctx, o)
     raise ValueError(d)
 
@@ -567,6 +584,21 @@ def _dec_special(d, x, ctx, o):
         if "w" in xx:
             kw["w"] = _ctor(int, xx["w"])
         return info["cls"](info["later"](**kw), D(d[1], _need(x, "y")))
+    if k == "dcmut":
+        kw = dict(v=D(d[1], _need(x, "v")))
+        if "b" in x and x["b"] is not None:
+            xb = x["b"]
+            if not isinstance(xb, dict):
+                raise Reject("JSON object expected")
+            kb = {}
+            if "a" in xb:
+                kb["a"] = None if xb["a"] is None else D(d, xb["a"])
+            if "w" in xb:
+                kb["w"] = _ctor(int, xb["w"])
+            kw["b"] = info["other"](**kb)
+        elif "b" in x:
+            kw["b"] = None
+        return info["cls"](**kw)
     raise ValueError(d)
 
 
@@ -722,6 +754,10 @@ def conforms(d, v, ctx):
         info = ctx.info[d]
         return (type(v) is info["cls"] and type(v.x) is info["later"] and C(d[1], v.x.z) and type(v.x.w) is int
                 and C(d[1], v.y))
+    if k == "dcmut":
+        info = ctx.info[d]
+        return (type(v) is info["cls"] and C(d[1], v.v)
+                and (v.b is None or (type(v.b) is info["other"] and type(v.b.w) is int and (v.b.a is None or C(d, v.b.a)))))
     raise ValueError(d)
 
 
